@@ -461,19 +461,22 @@ class ConditionLike:
                 try:
                     spec_val = valida.datapath.DataPath.from_spec(spec_val)
                 except MalformedDataPathSpec:
-                    # Check values for DataPath specs:
-                    for k, v in spec_val.items():
+                    # Check values for DataPath specs (in a copy, not in the caller's spec):
+                    spec_val = dict(spec_val)
+                    for k, v in list(spec_val.items()):
                         try:
                             spec_val[k] = valida.datapath.DataPath.from_spec(v)
                         except MalformedDataPathSpec:
                             pass
             elif isinstance(spec_val, (list, tuple)):
-                # Check items for DataPath specs:
-                for idx, v in enumerate(spec_val):
+                # Check items for DataPath specs (in a copy, not in the caller's spec):
+                items = list(spec_val)
+                for idx, v in enumerate(items):
                     try:
-                        spec_val[idx] = valida.datapath.DataPath.from_spec(v)
+                        items[idx] = valida.datapath.DataPath.from_spec(v)
                     except MalformedDataPathSpec:
                         pass
+                spec_val = type(spec_val)(items)
 
             # invoke the condition method to construct the Condition object:
 
